@@ -40,6 +40,52 @@ def mesh2():
     return Mesh('2d', 2, (6, 4), [l0, tile(rlo, rhi, [[], []])])
 
 
+def mesh3t():
+    # three boxes in one level-0 file (a cut at a FAB boundary can leave 1 or 2 of 3), one refined box
+    l0 = tile((0, 0, 0), (5, 1, 1), [[2, 4], [], []])
+    rlo, rhi = refine_region((2, 0, 0), (3, 0, 0))
+    return Mesh('3dt', 3, (6, 2, 2), [l0, tile(rlo, rhi, [[], [], []])])
+
+
+REF3T = None
+
+
+def ref_trunc():
+    global REF3T
+    if REF3T is None:
+        m = mesh3t()
+        REF3T = Ref('t', 3, ['density', 'a', 'temp'], m.ncell0, m.boxes, layout=[[(0, 2), (0, 0), (0, 1)], [(0, 0)]], lo=[-0.5, 1.25, 2.0], dx0=[0.5, 0.25, 0.125])
+    return REF3T
+
+
+def write_inputs(fs, root):
+    ref3, ref3b, ref2, chk, ref3c = refs()
+    ref3.write_symfs(fs, posixpath.join(root, 'plt00010'))
+    ref3b.write_symfs(fs, posixpath.join(root, 'plt00020'))
+    ref3c.write_symfs(fs, posixpath.join(root, 'plt00030'))
+    ref_trunc().write_symfs(fs, posixpath.join(root, 'plt00040'))
+    ref2.write_symfs(fs, posixpath.join(root, 'plt2d'))
+    chk.write_symfs(fs, posixpath.join(root, 'chk00005'))
+    chk.write_symfs(fs, posixpath.join(root, 'restart7'))
+
+
+def trunc_samples(bf):
+    """Quick-tier sample of truncated lengths: empty, every FAB boundary, inside / at the end of every FAB header, inside the
+    payload (aligned and not), one value short."""
+    from symx.fs import HB, WD
+    out = {0}
+    items = bf.items()
+    for i, (a, kind, payload) in enumerate(items):
+        if kind == HB:
+            hl = len(payload)
+            out |= {a, a + hl // 2, a + hl}
+        elif kind == WD:
+            n = len(payload)
+            out |= {a + 8 * (n // 2), a + 8 * (n // 2) + 3, a + 8 * n - 8}
+    nat = bf.natural_size()
+    return sorted(x for x in out if 0 <= x < nat)
+
+
 REF3 = None
 REF3B = None
 REF3C = None
@@ -137,6 +183,25 @@ def invocations(form):
     inv('chef/unknown-recipe', [p3], lambda m: m['amr_kitchen.chef.chef'].Chef(plotfile=sp(p3), recipe='NOPE', outfile=out).cook(), [out], fail='unknown-field')
     inv('marinate/unreadable', [p3], BY['marinate'], [p3 + '.pkl'], fail='unreadable', setup=lambda fs: fs.remove(posixpath.join(p3, 'Level_1', 'Cell_H')))
     inv('minuterie/unreadable', [p3], BY['minuterie'], [], fail='unreadable', setup=lambda fs: fs.remove(posixpath.join(p3, 'Header')))
+    # ---- unreadable input, second kind: an input binary file that ends early (symbolic length S below its real length)
+    p4 = posixpath.join(root, 'plt00040')
+    T = []
+
+    def tinv(name, inputs, call, allowed, files):
+        for rel in files:
+            I.append({'name': '%s/truncated:%s' % (name, rel), 'inputs': inputs, 'call': call, 'allowed': allowed, 'fail': 'truncated', 'setup': None,
+                      'trunc': posixpath.join(inputs[0] if not rel.startswith('@2:') else inputs[1], rel.replace('@2:', ''))})
+    both = ['Level_0/Cell_D_00000', 'Level_1/Cell_D_00000']
+    tinv('colander', [p4], lambda m: m['amr_kitchen.colander.colander'].Colander(plotfile=sp(p4), limit_level=None, output=out, variables=['a', 'density']).strain(), [out], both)
+    tinv('chef', [p4], lambda m: m['amr_kitchen.chef.chef'].Chef(plotfile=sp(p4), recipe=RECIPE, outfile=out, serial=False, kept_fields='temp').cook(), [out], both)
+    tinv('chef-serial', [p4], lambda m: m['amr_kitchen.chef.chef'].Chef(plotfile=sp(p4), recipe=RECIPE, outfile=out, serial=True).cook(), [out], both[:1])
+    tinv('whip', [p4], argv_call('amr_kitchen.whip.cli', ['whip', '--variable', 'a', '--nochecks', '--outfile', out, sp(p4)]), [out + '.npy'], both)
+    tinv('pestle', [p4], argv_call('amr_kitchen.pestle.cli', ['pestle', '--variable', 'a', sp(p4)]), [], both)
+    tinv('mandoline-array', [p4], lambda m: M(m)(sp(p4), fields=['density', 'a'], serial=True, verbose=0).slice(normal=1, pos=1.4, outfile=out, fformat='array'), [out + '.npz'], both)
+    tinv('mandoline-plotfile', [p4], lambda m: M(m)(sp(p4), fields=['temp'], serial=False, verbose=0).slice(normal=2, pos=2.1, outfile=out, fformat='plotfile'), [out], both[:1])
+    tinv('combine', [p3, p3b], BY['combine'], [out], ['Level_0/Cell_D_00000', '@2:Level_0/Cell_D_00000'])
+    tinv('combine-byfile', [p3, p3c], BY['combine-byfile'], [out], ['Level_0/Cell_D_00000', '@2:Level_0/Cell_D_00000'])
+    tinv('chk2plt', [pc], BY['chk2plt'], [out], ['Level_0/state_D_00000', 'Level_0/gradp_D_00000'])
     return I
 
 
@@ -162,20 +227,24 @@ def allowed_write(p, a):
     return inside(p, a) or inside(a, p)
 
 
-def run_inv(mods, form, inv, ctx, with_fault=True, canary=False):
+def run_inv(mods, form, inv, ctx, with_fault=True, canary=False, intact=False):
     ref3, ref3b, ref2, chk, ref3c = refs()
     fs = SymFS(cwd='/')
     fs.mkdirs('/scratch', audit=False)
     fs.mkdirs(form['cwd'], audit=False)
     root = form['root']
-    ref3.write_symfs(fs, posixpath.join(root, 'plt00010'))
-    ref3b.write_symfs(fs, posixpath.join(root, 'plt00020'))
-    ref3c.write_symfs(fs, posixpath.join(root, 'plt00030'))
-    ref2.write_symfs(fs, posixpath.join(root, 'plt2d'))
-    chk.write_symfs(fs, posixpath.join(root, 'chk00005'))
-    chk.write_symfs(fs, posixpath.join(root, 'restart7'))
+    write_inputs(fs, root)
     if inv['setup']:
         inv['setup'](fs)
+    if inv.get('trunc') and not intact:
+        node = fs.lookup(inv['trunc'])
+        nat = node.bf.natural_size()
+        S = core.integer('S_trunc')
+        ctx.assume(S.t >= 0)
+        ctx.assume(S.t < nat)
+        if common.TIER == 'quick':
+            ctx.assume(z3.Or(*[S.t == v for v in trunc_samples(node.bf)]))
+        node.bf.limit = S
     fs.cwd = form['cwd']
     fs.audit.clear()
     fs.nmut = 0
@@ -215,6 +284,30 @@ def run_inv(mods, form, inv, ctx, with_fault=True, canary=False):
     failed = fs.fault_fired is not None or inv['fail'] is not None
     if canary:
         failed = True
+    if inv.get('trunc'):
+        if intact:
+            obl.holds(outcome in ('returned', 'exit-zero'), '%s: fails on the intact input: %s' % (what, err))
+            return obl, fs
+        # the input is unreadable for this run exactly when a read came back shorter than the intact file would have
+        # given it; a normal return is then a swallowed failure - reported when the result also differs from the intact run's
+        cut = [c for c in fs.cut_reads if c[0] == inv['trunc']]
+        ctx.data['cut'] = cut[:1]
+        if not cut:
+            obl.holds(True, 'no read was cut')
+            return obl, fs
+        if outcome in ('raised', 'exit-nonzero'):
+            obl.holds(True, 'failure reported')
+            return obl, fs
+        ref_out = intact_outputs(mods, form, inv)
+        same = ref_out is not None and all(fs.snapshot(a) == ref_out.get(a) for a in inv['allowed'] if not a.endswith('*'))
+        if same and inv['allowed']:
+            ctx.note('a read was cut short without any effect on the output')
+            obl.holds(True, 'no effect')
+            return obl, fs
+        obl.fail('%s: the input ends early (%s at byte %d of %s), yet the tool %s%s' % (
+            what, cut[0][2], cut[0][1], posixpath.basename(cut[0][0]), 'returned normally' if outcome == 'returned' else 'exited with status 0',
+            ' and its output differs from the run on the intact input' if inv['allowed'] else ''))
+        return obl, fs
     if failed:
         obl.holds(outcome in ('raised', 'exit-nonzero'), '%s: %s, yet the tool %s' % (
             what, ('I/O error injected at operation #%d (%s %s)' % fs.fault_fired) if fs.fault_fired else inv['fail'],
@@ -226,12 +319,34 @@ def run_inv(mods, form, inv, ctx, with_fault=True, canary=False):
     return obl, fs
 
 
+_INTACT = {}
+
+
+def intact_outputs(mods, form, inv):
+    """Snapshot of the outputs of the same invocation on the intact input (one concrete path, cached)."""
+    key = (form['root'], form['cwd'], inv['name'])
+    if key not in _INTACT:
+        box = {}
+
+        def path(ctx):
+            obl, fs = run_inv(mods, form, inv, ctx, with_fault=False, intact=True)
+            box['out'] = None if obl.failed else {a: fs.snapshot(a) for a in inv['allowed'] if not a.endswith('*')}
+            return obl
+        core.explore(path, max_paths=2)
+        _INTACT[key] = box.get('out')
+    return _INTACT[key]
+
+
 def run_case(case):
     res = CaseResult()
     mods = common.mods()
     form = FORMS[case['form']]
     inv = invocations(form)[case['index']]
     viol = {}
+    if inv.get('trunc'):
+        if intact_outputs(mods, form, inv) is None:
+            res['errors'].append('C13 %s: the invocation fails on the intact input' % inv['name'])
+            return res
 
     def path(ctx):
         return run_inv(mods, form, inv, ctx, with_fault=inv['fail'] is None)[0]
@@ -243,6 +358,9 @@ def run_case(case):
             msg = obl.failed[0][0]
             kind = 'writes-inside-input' if 'inside the input' in msg else ('stray-write' if 'outside the requested' in msg else
                    ('input-modified' if 'was modified' in msg else ('swallowed-failure' if 'yet the tool' in msg else 'fails-without-fault')))
+            if inv.get('trunc'):
+                cutev = (ctx.data.get('cut') or [('', 0, '')])[0]
+                kind += '/' + ('at-fab-boundary' if 'early) end' in cutev[2] else ('inside-header' if 'inside the line' in cutev[2] else 'inside-payload'))
             formtag = 'trailing-slash' if 'trailing' in case['form'] else 'plain-path'
             sig = 'C13/%s/%s/%s' % (inv['name'], kind, formtag)
             if sig not in viol:
@@ -255,6 +373,8 @@ def run_case(case):
                         k = None
                 viol[sig] = {'signature': sig, 'what': msg[:300], 'form': case['form'], 'index': case['index'],
                              'fault': ctx.data.get('fault_site') if 'yet the tool' in msg and inv['fail'] is None else None}
+                if inv.get('trunc') and m is not None:
+                    viol[sig]['trunc_size'] = m.eval(z3.Int('S_trunc'), model_completion=True).as_long()
 
     def canary(ctx):
         return run_inv(mods, form, inv, ctx, with_fault=False, canary=True)[0]
@@ -296,14 +416,13 @@ def make_replay_(v):
     fs = SymFS(cwd='/')
     form = FORMS[v['form']]
     root = form['root']
-    ref3.write_symfs(fs, posixpath.join(root, 'plt00010'))
-    ref3b.write_symfs(fs, posixpath.join(root, 'plt00020'))
-    ref3c.write_symfs(fs, posixpath.join(root, 'plt00030'))
-    ref2.write_symfs(fs, posixpath.join(root, 'plt2d'))
-    chk.write_symfs(fs, posixpath.join(root, 'chk00005'))
-    chk.write_symfs(fs, posixpath.join(root, 'restart7'))
+    write_inputs(fs, root)
     plotfile.write_real_tree(fs, root, os.path.join(d, 'sandbox') + root, val)
     case = {'property': 'C13', 'handler': 'c13', 'signature': v['signature'], 'what': v['what'], 'form': v['form'], 'index': v['index'], 'fault': v['fault']}
+    if v.get('trunc_size') is not None:
+        case['trunc_size'] = v['trunc_size']
+        # the same inputs once more, left intact: the replay compares the two runs
+        plotfile.write_real_tree(fs, root, os.path.join(d, 'sandbox_intact') + root, val)
     with open(os.path.join(d, 'case.json'), 'w') as f:
         json.dump(case, f, indent=1)
     with open(os.path.join(d, 'python'), 'w') as f:
@@ -393,10 +512,49 @@ def real_tree(top):
 
 def replay(d, case):
     """Runs in /verif/.venv/bin/python with the real, unpatched repository modules."""
+    if case.get('trunc_size') is not None:
+        return replay_truncated(d, case)
+    return replay_one(d, case, os.path.join(d, 'sandbox'))[:2]
+
+
+def replay_truncated(d, case):
+    """The invocation on the truncated input and on the intact one: reproduced when the truncated run returns normally
+    although what it produced differs from the intact run's (so the missing bytes mattered and nobody was told)."""
+    import multiprocessing
+    sbt, sbi = os.path.join(d, 'sandbox'), os.path.join(d, 'sandbox_intact')
+    f0 = FORMS[case['form']]
+    inv = invocations(dict(cwd=sbt + f0['cwd'], root=sbt + f0['root'], spell=f0['spell'], scratch=sbt + '/scratch'))[case['index']]
+    target = inv['trunc']
+    with open(target, 'r+b') as f:
+        f.truncate(case['trunc_size'])
+    res = {}
+    for tag, sb in (('truncated', sbt), ('intact', sbi)):
+        q = multiprocessing.get_context('fork').Queue()
+
+        def child(sb=sb, q=q):
+            bad, msg, info = replay_one(d, dict(case, trunc_size=None), sb)
+            q.put((bad, msg, info))
+        pr = multiprocessing.get_context('fork').Process(target=child)
+        pr.start()
+        res[tag] = q.get(timeout=600)
+        pr.join()
+    (bad_t, msg_t, info_t), (bad_i, msg_i, info_i) = res['truncated'], res['intact']
+    if bad_t:
+        return True, msg_t
+    if info_i['outcome'] not in ('returned', 'exit-zero'):
+        return False, 'the invocation fails on the intact input too (%s)' % info_i['outcome']
+    if info_t['outcome'] in ('raised', 'exit-nonzero'):
+        return False, 'the truncated input is reported (%s)' % info_t['outcome']
+    if info_t['outputs'] == info_i['outputs'] and info_t['stdout'] == info_i['stdout']:
+        return False, 'the truncated run returns normally with the same output as the intact run (the missing bytes did not matter)'
+    return True, ('%s cut to %d bytes: the tool %s, and its output differs from the run on the intact input'
+                  % (os.path.relpath(target, sbt), case['trunc_size'], 'returned normally' if info_t['outcome'] == 'returned' else 'exited with status 0'))
+
+
+def replay_one(d, case, sb):
     import contextlib
     import importlib
     import io
-    sb = os.path.join(d, 'sandbox')
     f0 = FORMS[case['form']]
     form = dict(cwd=sb + f0['cwd'], root=sb + f0['root'], spell=f0['spell'], scratch=sb + '/scratch')
     os.makedirs(form['cwd'], exist_ok=True)
@@ -418,7 +576,8 @@ def replay(d, case):
     os.chdir(form['cwd'])
     outcome = 'returned'
     restore = install_fault(case.get('fault'), sb) if case.get('fault') else None
-    with contextlib.redirect_stdout(io.StringIO()), contextlib.redirect_stderr(io.StringIO()):
+    buf = io.StringIO()
+    with contextlib.redirect_stdout(buf), contextlib.redirect_stderr(io.StringIO()):
         try:
             inv['call'](mods)
         except SystemExit as e:
@@ -429,17 +588,19 @@ def replay(d, case):
         restore()
     after = real_tree(sb)
     changed = [p for p in after if before.get(p) != after[p]] + [p for p in before if p not in after]
+    info = {'outcome': outcome, 'outputs': sorted((p[len(sb):], after.get(p)) for p in changed),
+            'stdout': '\n'.join(l for l in buf.getvalue().replace(sb, '').splitlines() if ' s)' not in l and 'it/s' not in l and 'Done!' not in l)}
     for p in changed:
         if any(inside(p, t) for t in inv['inputs']):
-            return True, 'created / modified inside the input tree: %s' % p[len(sb):]
+            return True, 'created / modified inside the input tree: %s' % p[len(sb):], info
         if not any(allowed_write(p, a) for a in inv['allowed']) and not inside(form['scratch'], p):
-            return True, 'wrote outside the requested / documented output: %s' % p[len(sb):]
+            return True, 'wrote outside the requested / documented output: %s' % p[len(sb):], info
     if case.get('fault') and outcome not in ('raised', 'exit-nonzero'):
         return True, 'I/O error at %s #%d of %s, yet the tool %s' % (case['fault']['op'], case['fault']['occ'], case['fault']['path'],
-                                                                      'returned normally' if outcome == 'returned' else 'exited with status 0')
-    if inv['fail'] is not None and outcome not in ('raised', 'exit-nonzero'):
-        return True, '%s, yet the tool %s' % (inv['fail'], 'returned normally' if outcome == 'returned' else 'exited with status 0')
-    return False, 'inputs untouched, outputs where they belong, outcome %s' % outcome
+                                                                      'returned normally' if outcome == 'returned' else 'exited with status 0'), info
+    if inv['fail'] is not None and inv['fail'] != 'truncated' and outcome not in ('raised', 'exit-nonzero'):
+        return True, '%s, yet the tool %s' % (inv['fail'], 'returned normally' if outcome == 'returned' else 'exited with status 0'), info
+    return False, 'inputs untouched, outputs where they belong, outcome %s' % outcome, info
 
 
 def cases():
@@ -453,6 +614,8 @@ def cases():
                 continue
             if '/' in name and fname not in ('absolute', 'trailing-slash') and tier == 'quick':
                 continue
+            if '/truncated:' in name and fname != 'absolute':
+                continue            # how the input is spelled has nothing to do with how its bytes are read
             out.append({'label': '%s/%s' % (fname, name), 'form': fname, 'index': i})
     return out
 
